@@ -55,7 +55,12 @@ class SchemaField:
             )
 
         if self.values:
-            if value not in self.values:
+            if self.ftype.upper() in {"MULTIPLEVALUESTRING", "MULTIPLESTRINGVALUE"}:
+                # one or more space delimited values, each of them enumerated
+                is_member = all(v in self.values for v in value.split(" "))
+            else:
+                is_member = value in self.values
+            if not is_member:
                 raise FIXMessageError(
                     f"Field={self.name} value expected to be one of the"
                     f" {list(self.values.keys())}, got ({value=})"
